@@ -261,12 +261,68 @@ def no_inplace_update_of_borrowed_arrays(qualname):
                 borrowed.setdefault(s.targets[0].value.id, []).append((s.lineno, "%s (bound outside the loop at line %d)" % (v.id, loop_of[s].lineno)))
             elif isinstance(v, ast.Attribute):
                 borrowed.setdefault(s.targets[0].value.id, []).append((s.lineno, ast.unparse(v)))
+    # parent links, to look for a dominating fresh store `A[k] = <new array>` before an in-place update of `A[k]`
+    parent = {}
+    for node in ast.walk(fi.node):
+        for child in ast.iter_child_nodes(node):
+            parent[child] = node
+
+    def _is_fresh(v):
+        if isinstance(v, ast.Call):
+            f = v.func
+            return (f.attr if isinstance(f, ast.Attribute) else getattr(f, "id", "")) in fresh_calls
+        return isinstance(v, (ast.BinOp, ast.UnaryOp, ast.Constant, ast.List, ast.ListComp))
+
+    def _dominating_fresh_store(aug):
+        """line of a store `A[k] = <fresh>` (same container, same key text) that precedes the update in its own block or in an
+        enclosing block (such a statement is executed before the update on every path), provided no loop that rebinds a name of
+        the key lies in between; None if there is none"""
+        key = ast.unparse(aug.target)
+        key_names = {x.id for x in ast.walk(aug.target.slice) if isinstance(x, ast.Name)}
+        node = aug
+        while node in parent and not isinstance(node, (ast.FunctionDef, ast.AsyncFunctionDef, ast.Lambda)):
+            par = parent[node]
+            for field in ("body", "orelse", "finalbody"):
+                block = getattr(par, field, None)
+                if isinstance(block, list) and node in block:
+                    for st in reversed(block[: block.index(node)]):
+                        if isinstance(st, ast.Assign) and len(st.targets) == 1 and ast.unparse(st.targets[0]) == key:
+                            return st.lineno if _is_fresh(st.value) else None
+            if isinstance(par, ast.For) and key_names & {x.id for x in ast.walk(par.target) if isinstance(x, ast.Name)}:
+                return None
+            node = par
+        return None
+
+    def _key_tag(slice_node):
+        """first element of a tuple key when it is a string constant (keys with different tags cannot denote the same element);
+        a plain name is looked through when it has exactly one assignment in the function"""
+        k = slice_node
+        if isinstance(k, ast.Name):
+            defs = [a.value for a in ast.walk(fi.node) if isinstance(a, ast.Assign) and len(a.targets) == 1 and isinstance(a.targets[0], ast.Name) and a.targets[0].id == k.id]
+            if len(defs) != 1:
+                return None
+            k = defs[0]
+        if isinstance(k, ast.Tuple) and k.elts and isinstance(k.elts[0], ast.Constant) and isinstance(k.elts[0].value, str):
+            return k.elts[0].value
+        return None
+
+    borrow_tags = {}
+    for st in ast.walk(fi.node):
+        if isinstance(st, ast.Assign) and len(st.targets) == 1 and isinstance(st.targets[0], ast.Subscript) and isinstance(st.targets[0].value, ast.Name):
+            borrow_tags[(st.targets[0].value.id, st.lineno)] = _key_tag(st.targets[0].slice)
+
     n = 0
     for s in ast.walk(fi.node):
         if isinstance(s, ast.AugAssign) and isinstance(s.target, ast.Subscript) and isinstance(s.target.value, ast.Name):
             n += 1
             c = s.target.value.id
+            dom = _dominating_fresh_store(s)
+            tag = _key_tag(s.target.slice)
             for line, src in borrowed.get(c, []):
+                if dom is not None and not (dom < line < s.lineno):
+                    continue  # the element updated here was bound to a new array just before, on every path
+                if tag is not None and borrow_tags.get((c, line)) is not None and borrow_tags[(c, line)] != tag:
+                    continue  # tuple keys with different constant first elements: not the same element
                 if src != c:
                     out.append(_ob(qualname, "inplace-on-borrowed:%s@L%d" % (c, s.lineno), False, s.lineno,
                                    "`%s[...]` is updated in place at line %d but was bound to an element of `%s` at line %d without a copy: the update also changes `%s`" % (c, s.lineno, src, line, src)))
@@ -670,4 +726,46 @@ def no_attribute_of_plain_container(qualname):
                 if a.attr not in _LIST_ATTRS:
                     out.append(_ob(qualname, "attribute-of-plain-list:%s.%s@L%d" % (a.value.id, a.attr, a.lineno), False, a.lineno, "`%s` was bound to a fresh list at line %d; `.%s` raises AttributeError" % (a.value.id, line, a.attr)))
     out.append(_ob(qualname, "container-attributes-exist:%d reads" % n, True, None, "%d attribute reads on names bound to fresh containers" % n))
+    return out
+
+
+def no_mutation_through_alias(qualname, readonly_roots=None):
+    """a local name that is (on some path) just another name for an array or container held by an object -- `x = obj.attr` or
+    `x = obj.attr[k]` -- must not be updated in place (`x += ...`, `x[...] = ...`, `x[...] += ...`): that would change the object.
+    `readonly_roots`: only attributes reached from these parameter names count (default: every attribute chain)"""
+    fi = source.lookup(qualname)
+    out = []
+    alias = {}
+    for s in ast.walk(fi.node):
+        if isinstance(s, ast.Assign) and len(s.targets) == 1 and isinstance(s.targets[0], ast.Name):
+            v = s.value
+            base = v.value if isinstance(v, ast.Subscript) else v
+            if isinstance(base, ast.Attribute):
+                root = base
+                while isinstance(root, (ast.Attribute, ast.Subscript)):
+                    root = root.value
+                if readonly_roots is None or (isinstance(root, ast.Name) and root.id in readonly_roots):
+                    alias.setdefault(s.targets[0].id, []).append((s.lineno, ast.unparse(v)))
+    n = 0
+    for s in ast.walk(fi.node):
+        tgt = None
+        if isinstance(s, ast.AugAssign):
+            tgt = s.target
+        elif isinstance(s, ast.Assign) and len(s.targets) == 1 and isinstance(s.targets[0], ast.Subscript):
+            tgt = s.targets[0]
+        if tgt is None:
+            continue
+        name = tgt.id if isinstance(tgt, ast.Name) else (tgt.value.id if isinstance(tgt, ast.Subscript) and isinstance(tgt.value, ast.Name) else None)
+        if name is None or name not in alias:
+            continue
+        if isinstance(tgt, ast.Name):
+            # `x += ...` on a bare name updates in place only when x is an array (for str / float it rebinds the name): counted
+            # only for attributes that hold arrays in this code base
+            if not isinstance(s.op, (ast.Add, ast.Sub, ast.Mult, ast.Div)) or not any(src.split("[")[0].split(".")[-1] in ("vals", "_vals", "t", "tvec", "outflow") for _, src in alias[name]):
+                continue
+        n += 1
+        line, src = alias[name][0]
+        out.append(_ob(qualname, "inplace-through-alias:%s@L%d" % (name, s.lineno), False, s.lineno,
+                       "`%s` is bound to `%s` at line %d (no copy) and updated in place at line %d: the update changes the object it came from" % (name, src, line, s.lineno)))
+    out.append(_ob(qualname, "no-inplace-update-through-aliases:%d aliases" % len(alias), True, None, "%d local aliases of object attributes checked" % len(alias)))
     return out
